@@ -32,7 +32,19 @@ def gen_seq(rng, max_len):
     return "".join(out)
 
 
-def gen_fasta(rng, max_records=5, max_len=160, names=None):
+def gen_many_rows(rng):
+    """Scale outlier: one record whose derived assembly has well over a
+    thousand rows (alternating short ACGT and N runs)."""
+    n = rng.randint(520, 1200)
+    seq = "".join(rng.choice(_ACGT) * rng.choice([1, 1, 2]) + "N" * rng.choice([1, 1, 3]) for _ in range(n))
+    rec = {"name": "big" + str(rng.randint(1, 9)), "desc": "", "seq": seq, "width": rng.choice([60, 61, len(seq)]), "crlf": False}
+    recs = [rec]
+    if rng.random() < 0.5:
+        recs.append({"name": "small", "desc": "", "seq": gen_seq(rng, 30), "width": 60, "crlf": False})
+    return {"records": recs, "final_newline": True}
+
+
+def gen_fasta(rng, max_records=5, max_len=160, names=None, odd=True):
     """FASTA spec: uniform line width within a record, LF or CRLF per record,
     final newline present or absent, optional descriptions."""
     nrec = rng.choice([1, 1, 2, 2, 3, 3, 4, rng.randint(1, max_records)])
@@ -48,6 +60,13 @@ def gen_fasta(rng, max_records=5, max_len=160, names=None):
                     break
         used.add(name)
         seq = gen_seq(rng, max_len)
+        if odd:
+            # legal but unusual FASTA: a name beginning with '#', a record without residues
+            r = rng.random()
+            if r < 0.03:
+                name = "#" + name
+            elif r < 0.07:
+                seq = ""
         w = rng.choice([1, 2, 3, 5, 7, 10, 60, 80, len(seq), len(seq) + 3, rng.randint(1, 80)])
         w = max(1, w)
         recs.append({
@@ -89,7 +108,7 @@ def mutate_fasta(rng, spec):
     if how < 0.6:
         # same geometry, different gap pattern
         r = rng.choice(recs)
-        s = list(r["seq"])
+        s = list(r["seq"]) or ["A"]
         for _ in range(rng.randint(1, max(1, len(s) // 4))):
             j = rng.randrange(len(s))
             s[j] = "N" if s[j] in "ACGTacgt" else rng.choice(_ACGT)
